@@ -479,12 +479,15 @@ def run(ctx):
     ctx.guarded('C16-D2', 'correlators.py:Corr.GEVP@symmetrised', d2_symmetrised, ctx, mod)
     ctx.guarded('C16-D3', 'correlators.py:Corr.GEVP@alignment', d3_alignment, ctx, mod)
     ctx.guarded('C16-D4', 'correlators.py:Corr.GEVP@validation', d4_validation, ctx, mod)
+    from .. import aliasloop
+    ctx.guarded('C16-D5', 'correlators.py@aliased-buffers', aliasloop.alias_in_loop, ctx, 'C16-D5', mod, ['Corr.prune', 'Corr.GEVP', '_sort_vectors', '_GEVP_solver', 'Corr.projected', 'Corr.Eigenvalue', 'Corr.Hankel'])
     ctx.guarded('C16-D3', 'correlators.py:Corr.GEVP@method', d7_method_choice, ctx, mod)
     ctx.guarded('C16-D5', 'correlators.py@projections', d5_projections, ctx, mod)
     ctx.guarded('C16-D6', 'mpm.py', d6_pencil, ctx)
 
 
 SELFTEST = [
+    ('prune-scratch-not-copied', 'pyerrors/correlators.py', "            rmat.append(np.copy(tmpmat))", "            rmat.append(tmpmat)", 'C16-D5'),
     ('prune-mirror-copy', 'pyerrors/correlators.py', "                for j in range(Ntrunc):\n                    tmpmat[i][j] = evecs[i].T @ self[t] @ evecs[j]\n", "                for j in range(i + 1):\n                    tmpmat[i][j] = evecs[i].T @ self[t] @ evecs[j]\n                    tmpmat[j][i] = tmpmat[i][j]\n", 'C16-D5'),
     ('prune-triangle-only', 'pyerrors/correlators.py', "                for j in range(Ntrunc):\n                    tmpmat[i][j] = evecs[i].T @ self[t] @ evecs[j]\n", "                for j in range(i + 1):\n                    tmpmat[i][j] = evecs[i].T @ self[t] @ evecs[j]\n", 'C16-D5'),
     ('benign-prune-two-direct-stores', 'pyerrors/correlators.py', "                for j in range(Ntrunc):\n                    tmpmat[i][j] = evecs[i].T @ self[t] @ evecs[j]\n", "                for j in range(i + 1):\n                    tmpmat[i][j] = evecs[i].T @ self[t] @ evecs[j]\n                    tmpmat[j][i] = evecs[j].T @ self[t] @ evecs[i]\n", 'BENIGN'),
